@@ -5,6 +5,7 @@ import (
 	"math"
 	"os"
 	"strings"
+	"time"
 
 	"github.com/tdewolff/canvas"
 	"verifharness/hc"
@@ -497,9 +498,22 @@ func widthClass(pls []polyline, w float64) string {
 	return "segments-longer-than-width"
 }
 
+// flatCorpus: minimised past failures, always run first (regression inputs of repaired defects).
+var flatCorpus = []struct {
+	path  string
+	w     float64
+	style strokeStyle
+}{
+	// Stroke panicked in Settle's tracer ("next node for result polygon is nil"), repaired by /repo 719b7ec
+	{"M5 5L-4 -6L-4 1zM1 8L8 -4L0 4L3 3zM7 2L7 -6L-4 1L7 2L7 -2z", 2, strokeStyle{1, 4, 10}},
+}
+
 func regionFlat(c *hc.Ctx) {
 	for it := 0; it < c.N; it++ {
 		P, class := genFlatInput(c)
+		if it < len(flatCorpus) {
+			P, class = canvas.MustParseSVGPath(flatCorpus[it].path), "corpus"
+		}
 		pls, ok := polylinesOf(P)
 		if !ok || len(pls) == 0 {
 			c.Count("flat:skip-degenerate-input")
@@ -509,8 +523,11 @@ func regionFlat(c *hc.Ctx) {
 			fmt.Fprintln(os.Stderr, it, class, P.String(), P.Data())
 		}
 		w := []float64{0.25, 0.5, 1, 1.5, 2, 3, 5}[c.Intn(7)]
-		hw := w / 2
 		st := genStyle(c, it)
+		if it < len(flatCorpus) {
+			w, st = flatCorpus[it].w, flatCorpus[it].style
+		}
+		hw := w / 2
 		tol := hw / 50
 		c.Evals++
 		var R, Rf *canvas.Path
@@ -845,6 +862,23 @@ func offsetIrregular(P *canvas.Path, ds ...float64) bool {
 	return false
 }
 
+// aborted is set after a library call did not return within the watchdog time: the leaked goroutine
+// keeps running (and may allocate), so the remaining generators of this run are skipped.
+var aborted bool
+
+// guarded runs f under hc.Try with a watchdog; hung = true when f did not return in time.
+func guarded(f func()) (msg string, hung bool) {
+	done := make(chan string, 1)
+	go func() { done <- hc.Try(f) }()
+	select {
+	case m := <-done:
+		return m, false
+	case <-time.After(20 * time.Second):
+		aborted = true
+		return "", true
+	}
+}
+
 // genTeardrop: a closed subpath of exactly ONE segment - a cubic that returns to its start point - with
 // the corner angle at that point varied (half opening angle beta 8..82 degrees: turn 164..16 degrees),
 // both orientations, rotated and translated. offset() joins the segment with itself at that vertex.
@@ -968,13 +1002,40 @@ func regionCurved(c *hc.Ctx) {
 			P, class = genTeardrop(c)
 			st = strokeStyle{c.Intn(3), 5, []float64{1.001, 1.5, 2, 4}[it%4]}
 		}
+		if it >= 8 && it < 14 {
+			// always present: the half width equals the radius of an arc - one offset side is an arc of radius
+			// zero (regression class of /repo fbfcb63: it was scaled up to an ellipse of arbitrary size)
+			r := []float64{0.5, 0.75, 1}[it%3]
+			w, hw = 2*r, r
+			st = strokeStyle{c.Intn(3), c.Intn(2), 4}
+			if it%2 == 0 {
+				P = canvas.Circle(r).Translate(float64(c.Intn(5)-2), float64(c.Intn(5)-2))
+				class = "circle-radius-eq-halfwidth"
+			} else {
+				P = &canvas.Path{}
+				P.MoveTo(0, 0)
+				P.LineTo(3, 0)
+				P.ArcTo(r, r, 0, false, it%4 == 1, 3+r, r)
+				P.LineTo(3+r, r+3)
+				class = "line-arc-line-radius-eq-halfwidth"
+			}
+		}
+		if aborted {
+			c.Count("curved:skipped-after-hang")
+			continue
+		}
 		tol := hw / 50
 		c.Evals++
 		var R, Rf *canvas.Path
-		if msg := hc.Try(func() {
+		msg, hung := guarded(func() {
 			R = P.Stroke(w, cappers[st.cap], joiner(st.join, st.limit), tol)
 			Rf = R.Flatten(tol)
-		}); msg != "" {
+		})
+		if hung {
+			c.Fail("hang:stroke-curved:"+class, "Stroke did not return within 20 s", map[string]any{"P": P.String(), "w": w, "style": st.name(), "tol": tol})
+			continue
+		}
+		if msg != "" {
 			first := strings.SplitN(msg, "\n", 2)[0]
 			c.Fail("panic:stroke-curved:"+first, "Stroke panicked: "+first, map[string]any{"P": P.String(), "w": w, "style": st.name()})
 			continue
@@ -1260,16 +1321,40 @@ func offsetCurved(c *hc.Ctx) {
 		if c.Bool() {
 			d = -d
 		}
+		if it < 6 {
+			// always present: |d| equals the radius of the circle (inner offset arc of radius zero, /repo fbfcb63)
+			r := float64(1 + it%2)
+			P = canvas.Circle(r)
+			class = "circle-radius-eq-distance"
+			if it%4 >= 2 {
+				P = P.Reverse()
+				class = "circle-cw-radius-eq-distance"
+			}
+			v, chordErr, ok = finePolygon(P)
+			d = r
+			if it >= 3 {
+				d = -r
+			}
+		}
+		if aborted {
+			c.Count("offset-curved:skipped-after-hang")
+			continue
+		}
 		ad := math.Abs(d)
 		ccw := hc.Area(v) > 0
 		grow := (d > 0) == ccw
 		tol := ad / 50
 		c.Evals++
 		var R, Rf *canvas.Path
-		if msg := hc.Try(func() {
+		msg, hung := guarded(func() {
 			R = P.Offset(d, tol)
 			Rf = R.Flatten(tol)
-		}); msg != "" {
+		})
+		if hung {
+			c.Fail("hang:offset-curved:"+class, "Offset did not return within 20 s", map[string]any{"P": P.String(), "d": d, "tol": tol})
+			continue
+		}
+		if msg != "" {
 			first := strings.SplitN(msg, "\n", 2)[0]
 			c.Fail("panic:offset-curved:"+first, "Offset panicked: "+first, map[string]any{"P": P.String(), "d": d})
 			continue
